@@ -31,7 +31,7 @@ def _ident_map(ir):
     return m
 
 
-def check_forwarding(p_old, p_new, probes, max_stmts=400, rng=None, want_gaps=True, want_blocks=True):
+def check_forwarding(p_old, p_new, probes, max_stmts=400, rng=None, want_gaps=True, want_blocks=True, chain=()):
     """Forward every statement (and gap, and a few blocks) cursor of `p_old`
     to `p_new`.  Returns a list of violation dicts (empty if fine)."""
     old_ir = p_old._loopir_proc
@@ -46,6 +46,15 @@ def check_forwarding(p_old, p_new, probes, max_stmts=400, rng=None, want_gaps=Tr
     old_count = {}
     for _p, _s in stmt_paths(old_ir):
         old_count[id(_s)] = old_count.get(id(_s), 0) + 1
+    # intermediate procedures of the chain: a step that duplicated a statement object (cut_loop tail,
+    # specialize, ...) makes identity ambiguous from there on
+    for mid in chain:
+        cnt = {}
+        for _p, _s in stmt_paths(mid._loopir_proc):
+            cnt[id(_s)] = cnt.get(id(_s), 0) + 1
+        for k, v in cnt.items():
+            if v > 1 and k in old_count:
+                old_count[k] = max(old_count[k], v)
 
     def bad(sig, detail, path, s):
         viols.append(
